@@ -156,8 +156,9 @@ func extractSinglePart(re *syntax.Regexp) *charClassPart {
 	runes := charClass.Rune
 	for i := 0; i < len(runes); i += 2 {
 		lo, hi := runes[i], runes[i+1]
-		// Only support ASCII for now
-		if lo > 255 || hi > 255 {
+		// Only ASCII: a rune >= 0x80 is several bytes of UTF-8, not the
+		// byte with its number
+		if lo > 127 || hi > 127 {
 			return nil
 		}
 		for r := lo; r <= hi; r++ {
